@@ -892,6 +892,7 @@ package url
 //@   ensures wf(u)   [C02,C04,C19]
 //@   ensures old(shapeP(u)) ==> shapeP(u)   [C04,C05 shape-preserved-by-setters]
 //@   ensures keptArrays(u)
+//@   ensures u.searchParams == old(u.searchParams)   [C12 other-setters-keep-the-list]
 //@   ensures special(u, u.scheme) == old(special(u, u.scheme))   [C05,C07,C09 scheme-setter-keeps-specialness]
 //@   ensures u.scheme != old(u.scheme) ==> (u.inputUrl == old(cleaned(specHasSuffix(scheme, ":") ? scheme : scheme + ":")) && hasSch(u)
 //@           && u.scheme == specLowerRunes(inC(u), schEnd(u)))   [C05 protocol-value]
@@ -901,6 +902,7 @@ package url
 //@   ensures wf(u)   [C02,C04,C19]
 //@   ensures old(shapeP(u)) ==> shapeP(u)   [C04,C05 shape-preserved-by-setters]
 //@   ensures (u.host == nil || *u.host == "" || u.scheme == "file") ==> u.username == old(u.username)   [C05]
+//@   ensures (!(u.host == nil || *u.host == "" || u.scheme == "file") && username == "") ==> u.username == ""   [C05,C16]
 //@   ensures (!(u.host == nil || *u.host == "" || u.scheme == "file") && u.parser.opts.encodingOverride == nil) ==> u.username == specEncStr(runesOf(username),
 //@           runeCount(username), runeCount(username), bsBits(UserInfoPercentEncodeSet.bs), UserInfoPercentEncodeSet.allBelow, false, u.parser.opts.percentEncodeSinglePercentSign)   [C05 username-value]
 //@ func (*Url).SetPassword
@@ -909,6 +911,7 @@ package url
 //@   ensures wf(u)   [C02,C04,C19]
 //@   ensures old(shapeP(u)) ==> shapeP(u)   [C04,C05 shape-preserved-by-setters]
 //@   ensures (u.host == nil || *u.host == "" || u.scheme == "file") ==> u.password == old(u.password)   [C05]
+//@   ensures (!(u.host == nil || *u.host == "" || u.scheme == "file") && password == "") ==> u.password == ""   [C05,C16]
 //@   ensures (!(u.host == nil || *u.host == "" || u.scheme == "file") && u.parser.opts.encodingOverride == nil) ==> u.password == specEncStr(runesOf(password),
 //@           runeCount(password), runeCount(password), bsBits(UserInfoPercentEncodeSet.bs), UserInfoPercentEncodeSet.allBelow, false, u.parser.opts.percentEncodeSinglePercentSign)   [C05 password-value]
 //@ func (*Url).SetHost
@@ -917,6 +920,7 @@ package url
 //@   ensures wf(u)   [C02,C04,C19]
 //@   ensures old(shapeP(u)) ==> shapeP(u)   [C04,C05 shape-preserved-by-setters]
 //@   ensures keptArrays(u)
+//@   ensures u.searchParams == old(u.searchParams)   [C12 other-setters-keep-the-list]
 //@   ensures old(u.path.opaque) ==> sameUrl(u)   [C05]
 //@ func (*Url).SetHostname
 //@   requires wf(u)
@@ -924,6 +928,7 @@ package url
 //@   ensures wf(u)   [C02,C04,C19]
 //@   ensures old(shapeP(u)) ==> shapeP(u)   [C04,C05 shape-preserved-by-setters]
 //@   ensures keptArrays(u)
+//@   ensures u.searchParams == old(u.searchParams)   [C12 other-setters-keep-the-list]
 //@   ensures old(u.path.opaque) ==> sameUrl(u)   [C05]
 //@ func (*Url).SetPort
 //@   requires wf(u)
@@ -931,6 +936,7 @@ package url
 //@   ensures wf(u)   [C02,C04,C19]
 //@   ensures old(shapeP(u)) ==> shapeP(u)   [C04,C05 shape-preserved-by-setters]
 //@   ensures keptArrays(u)
+//@   ensures u.searchParams == old(u.searchParams)   [C12 other-setters-keep-the-list]
 //@   ensures (old(u.host) == nil || old(*u.host) == "" || old(u.scheme) == "file") ==> sameUrl(u)   [C05]
 //@   ensures (!(old(u.host) == nil || old(*u.host) == "" || old(u.scheme) == "file") && port == "") ==> (u.port == nil && u.decodedPort == 0)   [C05]
 //@   ensures sameButPort(u)   [C05]
@@ -940,6 +946,7 @@ package url
 //@   ensures wf(u)   [C02,C04,C19]
 //@   ensures old(shapeP(u)) ==> shapeP(u)   [C04,C05 shape-preserved-by-setters]
 //@   ensures keptArrays(u)
+//@   ensures u.searchParams == old(u.searchParams)   [C12 other-setters-keep-the-list]
 //@   ensures old(u.path.opaque) ==> sameUrl(u)   [C05]
 //@ func (*Url).SetHash
 //@   requires wf(u)
@@ -947,6 +954,7 @@ package url
 //@   ensures wf(u)   [C02,C04,C19]
 //@   ensures old(shapeP(u)) ==> shapeP(u)   [C04,C05 shape-preserved-by-setters]
 //@   ensures keptArrays(u)
+//@   ensures u.searchParams == old(u.searchParams)   [C12 other-setters-keep-the-list]
 //@   ensures fragment == "" ==> u.fragment == nil   [C05]
 //@   ensures (fragment != "" && !u.parser.opts.failOnValidationError && u.parser.opts.encodingOverride == nil) ==> (u.fragment != nil
 //@           && *u.fragment == encWith(fragSet(u), old(cleaned(specHasPrefix(fragment, "#") ? fragment[1:len(fragment)] : fragment))))   [C05 hash-value]
@@ -975,11 +983,14 @@ package url
 //@   modifies u.searchParams
 //@   ensures wf(u) && result != nil && result == u.searchParams && result.url == u   [C12]
 //@   ensures old(u.searchParams) != nil ==> result == old(u.searchParams)   [C12]
+//@   ensures old(u.searchParams) == nil ==> (fresh(result) && (result.params == nil || fresh(result.params))
+//@           && (forall k int :: (0 <= k && k < len(result.params)) ==> fresh(result.params[k])))
 //@ func (*Url).newUrlSearchParams
 //@   requires wf(u)
 //@   modifies u.searchParams
 //@   ensures wf(u) && u.searchParams != nil && fresh(u.searchParams) && u.searchParams.url == u
 //@   ensures u.searchParams.params == nil || fresh(u.searchParams.params)
+//@   ensures forall k int :: (0 <= k && k < len(u.searchParams.params)) ==> fresh(u.searchParams.params[k])
 //@ func (*Url).SetSearchParams
 //@   requires wf(u) && spOK(searchParams) && searchParams.url == u && searchParams != nil
 //@   modifies u.searchParams, u.query
@@ -1053,6 +1064,7 @@ package url
 //@   modifies s.params, s.params[..]
 //@   ensures spOK(s)
 //@   ensures arr(s.params) == old(arr(s.params)) || fresh(s.params)
+//@   ensures forall k int :: (0 <= k && k < len(s.params)) ==> fresh(s.params[k])   [C13,C14]
 //@   ensures len(s.params) == specFormCnt(query, specSplitN(query, "&"))   [C11 form-parse]
 //@   ensures forall j int :: (0 <= j && j < specSplitN(query, "&") && specFormPart(query, j) != "") ==>
 //@           (s.params[specFormCnt(query, j)].Name == formDec(s.url.parser, specFormRawName(specFormPart(query, j)))
@@ -1061,6 +1073,7 @@ package url
 //@   loop 1 invariant spOK(s) && (arr(s.params) == old(arr(s.params)) || fresh(s.params)) && (arr(s.params) == pre(arr(s.params)) || freshL(s.params))
 //@   loop 1 invariant len(p) == specSplitN(query, "&") && (forall k int :: 0 <= k && k < len(p) ==> p[k] == specFormPart(query, k)) && fresh(p)
 //@   loop 1 invariant len(s.params) == specFormCnt(query, $i)
+//@   loop 1 invariant forall k int :: (0 <= k && k < len(s.params)) ==> fresh(s.params[k])
 //@   loop 1 invariant forall j int :: (0 <= j && j < $i) ==> (0 <= specFormCnt(query, j) && specFormCnt(query, j) <= specFormCnt(query, j + 1) && specFormCnt(query, j + 1) <= specFormCnt(query, $i))
 //@   loop 1 invariant forall j int :: (0 <= j && j < $i && specFormPart(query, j) != "") ==>
 //@           s.params[specFormCnt(query, j)].Name == formDec(s.url.parser, specFormRawName(specFormPart(query, j)))
@@ -1173,10 +1186,12 @@ package url
 
 //@ func (*parser).PercentEncodeString
 //@   requires p != nil && setOK(tr)
+//@   ensures s == "" ==> result == ""
 //@   ensures p.opts.encodingOverride == nil ==> result == specEncStr(runesOf(s), runeCount(s), runeCount(s), bsBits(tr.bs), tr.allBelow, tr == nil,
 //@           p.opts.percentEncodeSinglePercentSign)   [C10]
 //@   loop 1 modifies bufv(buffer)
 //@   loop 1 invariant buffer != nil && fresh(buffer) && len(runes) == runeCount(s) && off(runes) == 0 && content(runes) == runesOf(s) && fresh(runes)
+//@   loop 1 invariant $i == 0 ==> bufv(buffer) == ""
 //@   loop 1 invariant p.opts.encodingOverride == nil ==> bufv(buffer) == specEncStr(runesOf(s), $i, runeCount(s), bsBits(tr.bs), tr.allBelow, tr == nil,
 //@           p.opts.percentEncodeSinglePercentSign)
 
